@@ -42,8 +42,22 @@ def rule_cs(ctx, rep):
         rep.check(blocked is None, "C04.cs", fl + ".one-section", "counting and marker queueing share one call_rcu_mutex section",
                   "call_rcu_mutex is released between counting the helpers and queueing the markers: a helper created or freed in between makes the count wrong", [u.where() for u in ul[:1]])
         # markers carry _rcu_barrier_complete
-        fs = [s for s in pat.stores(f, "rcu_head.func") if ir.expr(f, s.args[0]) == ("fn", "_rcu_barrier_complete")]
-        rep.check(bool(fs), "C04.cs", fl + ".marker-func", "markers run _rcu_barrier_complete", "marker callback is not _rcu_barrier_complete", [enq[0].where()])
+        # markers carry the completion callback: whatever its name, the function that counts barrier_count down
+        mk = marker_cb(ctx, fl)
+        fs = [s for s in pat.stores(f, "rcu_head.func") if ir.expr(f, s.args[0]) == ("fn", mk.name)]
+        rep.check(bool(fs), "C04.cs", fl + ".marker-func", "markers run the completion callback %s (the function that counts barrier_count down)" % mk.name,
+                  "marker callback is not the function that counts barrier_count down (%s)" % mk.name, [enq[0].where()])
+
+
+def marker_cb(ctx, fl):
+    """the completion callback of rcu_barrier's markers, identified by what it does (the only function besides rcu_barrier
+    itself that decrements call_rcu_completion.barrier_count), not by its name"""
+    F = FL[fl]
+    m = ctx.mod(F.lib, "flat")
+    c = [g for g in m.defined() if g.name != F.pfx + "_barrier" and pat.accesses(g, "call_rcu_completion.barrier_count", ("rmw",))]
+    if len(c) != 1:
+        raise Broken("%s: completion callback not identified (%s decrement barrier_count)" % (fl, [g.name for g in c]))
+    return c[0]
 
 
 def rule_count(ctx, rep):
@@ -95,9 +109,7 @@ def rule_sb(ctx, rep):
                            what="the waiter drops its reference only after observing barrier_count == 0 (a spurious wake-up re-enters the loop)")
         # completer
         m = ctx.mod(F.lib, "flat")
-        c = m.fn("_rcu_barrier_complete")
-        if c is None:
-            raise Broken("%s: _rcu_barrier_complete vanished" % fl)
+        c = marker_cb(ctx, fl)
         rep.touch(c)
         sub = [e.inst for e in pat.accesses(c, "call_rcu_completion.barrier_count", ("rmw",))]
         fl_ld = pat.loads(c, "call_rcu_completion.futex")
@@ -118,7 +130,7 @@ def rule_ref(ctx, rep):
     for fl in ALL:
         F = FL[fl]
         m = ctx.mod(F.lib, "flat")
-        c = m.fn("_rcu_barrier_complete")
+        c = marker_cb(ctx, fl)
         rep.touch(c)
         put = [e.inst for e in pat.accesses(c, None, ("rmw",)) if "call_rcu_completion.ref" in _fields(e.ap)]
         pat.require(put, "%s: urcu_ref_put not found in _rcu_barrier_complete" % fl)
